@@ -153,15 +153,17 @@ def build(variant, repo=None, quiet=True):
                          " ".join(inc)))
         # peek.c is optional: it uses internal headers and may not compile
         # against a refactored tree.
-        mk.append("peek.o: %s FORCE\n\t-$(CC) %s %s -MMD -MP -c -o peek.o.tmp %s "
+        mk.append("peek.o: %s\n\t$(CC) %s %s -MMD -MP -c -o peek.o.tmp %s "
                   "2>peek.err && mv peek.o.tmp peek.o || "
                   "$(CC) %s %s -DPEEK_STUB -c -o peek.o %s" % (
                       peek, " ".join(flags), " ".join(inc), peek,
                       " ".join(flags), " ".join(inc), peek))
-        mk.append("FORCE:")
         objs.append("peek.o")
-        mk.append("vnadrv: %s\n\t$(CC) %s -o $@ %s -lyaml -lm" % (
-            " ".join(objs), " ".join(flags), " ".join(objs)))
+        # link to a temporary name and rename: a running driver keeps its
+        # old image and never sees ETXTBSY / a half-written file
+        mk.append("vnadrv: %s\n\t$(CC) %s -o $@.tmp %s -lyaml -lm && "
+                  "mv -f $@.tmp $@" % (
+                      " ".join(objs), " ".join(flags), " ".join(objs)))
         mk.append("-include $(wildcard *.d)")
         mtext = "\n".join(mk) + "\n"
         mpath = os.path.join(bdir, "Makefile")
